@@ -329,9 +329,23 @@ Qed.
 (* the additive reading of a Loop used as oracle for hand-built loops (Corr.exec_windows: the body played rep times one
    after the other) is the tiling the code performs *)
 Require QV.C02.Corr.
+Lemma exec_dur_eq l : QV.C02.Corr.exec_dur l = ldur l.
+Proof.
+  induction l as [n wf ms ch IH] using loop_ind'. rewrite ldur_eq. cbn [QV.C02.Corr.exec_dur]. f_equal.
+  assert (E : map QV.C02.Corr.exec_dur ch = map ldur ch) by (apply map_ext_Forall; exact IH).
+  rewrite E. unfold body_of. destruct ch; reflexivity.
+Qed.
+Lemma exec_body_eq n wf ms ch : QV.C02.Corr.exec_body (Loop n wf ms ch) = body_of wf (map ldur ch).
+Proof.
+  cbn [QV.C02.Corr.exec_body].
+  assert (E : map QV.C02.Corr.exec_dur ch = map ldur ch) by (apply map_ext; intro; apply exec_dur_eq).
+  rewrite E. unfold body_of. destruct ch; reflexivity.
+Qed.
 Lemma exec_windows_eq l : QV.C02.Corr.exec_windows l = loop_windows l.
 Proof.
-  induction l as [n wf ms ch IH] using loop_ind'. cbn [QV.C02.Corr.exec_windows]. rewrite loop_windows_eq.
+  induction l as [n wf ms ch IH] using loop_ind'. cbn [QV.C02.Corr.exec_windows]. rewrite loop_windows_eq, exec_body_eq.
   rewrite seq_windows_repeat. f_equal. f_equal. f_equal. unfold pieces.
-  apply map_ext_Forall. eapply Forall_impl; [|exact IH]. intros c Hc. cbn beta. now rewrite Hc.
+  apply map_ext_Forall. eapply Forall_impl; [|exact IH]. intros c Hc. cbn beta. now rewrite Hc, exec_dur_eq.
 Qed.
+Lemma exec_reading_eq l : QV.C02.Corr.exec_dur l = ldur l /\ QV.C02.Corr.exec_windows l = loop_windows l.
+Proof. split; [apply exec_dur_eq | apply exec_windows_eq]. Qed.
